@@ -21,6 +21,7 @@ import (
 )
 
 type vfC16Script struct {
+	udpDelay time.Duration // the UDP reply is held back this long (to arrive late in the caller's deadline)
 	udpTC      bool
 	udpRcode   uint16
 	udpExtra   int    // extra answer records in the UDP reply
@@ -114,7 +115,15 @@ func (s *vfC16Server) serveUDP() {
 		if sc.udpTC {
 			bits |= vfkit.BitTC
 		}
-		s.udp.WriteToUDP(vfTokenReply(d, bits, sc.udpToken, sc.udpExtra), from)
+		reply := vfTokenReply(d, bits, sc.udpToken, sc.udpExtra)
+		if sc.udpDelay > 0 {
+			go func(delay time.Duration) {
+				time.Sleep(delay)
+				s.udp.WriteToUDP(reply, from)
+			}(sc.udpDelay)
+			continue
+		}
+		s.udp.WriteToUDP(reply, from)
 	}
 }
 
@@ -182,7 +191,7 @@ func vfMsgToken(m *dnsmsg.Msg) (uint32, bool) {
 var vfC16Tok uint32
 
 func TestVfC16Fallback(t *testing.T) {
-	st := vfkit.Stats("TestVfC16Fallback", "queries x UDP reply (TC on/off, rcode 0-5, 0-3 extra records) x TCP leg outcome (distinct reply, reply with TC, error rcode, close, silence until the deadline) against a fake server on one UDP+TCP port; oracle: TC=0 => UDP reply returned, no TCP query; TC=1 => TCP leg receives the same query and the caller gets exactly the TCP outcome; non-trivial = UDP reply has TC")
+	st := vfkit.Stats("TestVfC16Fallback", "queries x UDP reply (TC on/off, rcode 0-5, 0-3 extra records) x TCP leg outcome (distinct reply, reply with TC, error rcode, close, silence until the deadline), in one case of twelve with the UDP reply arriving 20-190 ms before the deadline, against a fake server on one UDP+TCP port; oracle: TC=0 => UDP reply returned, no TCP query; TC=1 => TCP leg receives the same query and the caller gets exactly the TCP outcome; non-trivial = UDP reply has TC")
 	defer vfkit.Flush()
 	srv := vfNewC16Server(t)
 	defer srv.close()
@@ -214,6 +223,12 @@ func TestVfC16Fallback(t *testing.T) {
 		if sc.udpTC && sc.tcp == "silence" {
 			deadline = 300 * time.Millisecond
 		}
+		// one case in five: the (truncated or not) UDP reply arrives when only 20-190 ms of the deadline are left
+		late := rapid.IntRange(0, 11).Draw(t, "lateUDPReply") == 0
+		if late {
+			deadline = 400 * time.Millisecond
+			sc.udpDelay = deadline - time.Duration(rapid.IntRange(20, 190).Draw(t, "remainingMs"))*time.Millisecond
+		}
 		ctx, cancel := context.WithTimeout(context.Background(), deadline)
 		start := time.Now()
 		m, err := u.ExchangeContext(ctx, q)
@@ -229,6 +244,11 @@ func TestVfC16Fallback(t *testing.T) {
 		srv.mu.Unlock()
 		if udpN == 0 {
 			vfkit.Inconclusive("C16: the UDP query never reached the fake server (loopback loss?)")
+		}
+		if !sc.udpTC && late && err != nil && m == nil {
+			// the late reply lost the race against the deadline (it was sent only 20-190 ms before it): no verdict
+			st.Case(vfkit.Fingerprint(fmt.Sprintf("%+v", *sc), callerID, "lost"), false, []string{"late-reply-lost-the-race"}, func() any { return nil })
+			return
 		}
 		if !sc.udpTC {
 			if err != nil {
@@ -246,7 +266,12 @@ func TestVfC16Fallback(t *testing.T) {
 			}
 			dnsmsg.ReleaseMsg(m)
 		} else {
-			if len(tcpQ) == 0 {
+			if len(tcpQ) == 0 && late {
+				// so late that the deadline may have passed before the TCP leg got anywhere: then there is no message at all
+				if m != nil {
+					t.Fatalf("UDP reply with TC arrived %v before the deadline, no TCP query was sent, yet the caller got a message (TC=%v)", deadline-sc.udpDelay, m.Header.Truncated)
+				}
+			} else if len(tcpQ) == 0 {
 				t.Fatalf("UDP reply had TC but no query was sent over TCP (err=%v)", err)
 			}
 			for _, tq := range tcpQ {
@@ -260,7 +285,12 @@ func TestVfC16Fallback(t *testing.T) {
 					t.Fatalf("the truncated UDP message was returned to the caller (TCP outcome %q)", sc.tcp)
 				}
 			}
+			if late && err != nil && m == nil {
+				// the deadline won the race against the TCP leg: fine
+				sc.tcp = "deadline-first"
+			}
 			switch sc.tcp {
+			case "deadline-first":
 			case "reply", "tc-reply", "rcode":
 				if err != nil {
 					t.Fatalf("TCP leg answered (%s) but the exchange failed: %v", sc.tcp, err)
